@@ -74,7 +74,15 @@ XalanOutputStreamPrintWriter::create(
 
 XalanOutputStreamPrintWriter::~XalanOutputStreamPrintWriter()
 {
-    flush();
+    // A destructor must not throw, and this one also runs
+    // while cleaning up after a failed write to the stream.
+    try
+    {
+        flush();
+    }
+    catch(...)
+    {
+    }
 }
 
 
